@@ -559,7 +559,7 @@ def string_features(node, out):
             string_features(a, out)
 
 
-def populate(ds, rng, base_us, long_range=False):
+def populate(ds, rng, base_us, long_range=False, odd_events=False):
     """Three populated buckets for query workloads. long_range: two of them also hold most of a year of long events
     (6-24 h each, about a third of the time covered), so that windows of weeks and months have something to cut."""
     from .gen import mk_event
@@ -579,6 +579,17 @@ def populate(ds, rng, base_us, long_range=False):
         dur = rng.choice([10, 30, 60, 120]) * 10**6
         a.append(dict(ts=p2, dur=dur, data={"status": rng.choice(["not-afk", "afk"])}))
         p2 += dur
+    if odd_events:
+        # legal but unusual events: negative durations (clock adjustments between heartbeats), identical twins, a day-long one
+        for lst in (w, web):
+            for _ in range(rng.randrange(1, 4)):
+                src = dict(rng.choice(lst)) if lst else dict(ts=base_us, dur=0, data={"title": "x"})
+                kind = rng.choice(["negative", "negative", "twin", "day"])
+                if kind == "negative":
+                    src = dict(src, ts=src["ts"] + rng.choice([0, 10**6, 7 * 10**6]), dur=-rng.choice([1, 1000, 5 * 10**6, 90 * 10**6]))
+                elif kind == "day":
+                    src = dict(src, dur=86400 * 10**6)
+                lst.append(src)
     lo = base_us - 10 * 10**6
     if long_range:
         hour, day = 3600 * 10**6, 86400 * 10**6
